@@ -574,7 +574,8 @@ class ChainedDiscretizer(BaseDiscretizer):
 
                     # adding unknown to the order
                     for unknown_value in unknown_values:
-                        order.append(unknown_value)
+                        if unknown_value not in order:  # (already there when converted to str)
+                            order.append(unknown_value)
                         if self.str_nan not in order:  # (appending it again would reset its group)
                             order.append(self.str_nan)
                         # grouping unknown value with str_nan
